@@ -30,6 +30,7 @@ def main():
     ap.add_argument("--tier", default="quick")
     ap.add_argument("--keep", action="store_true")
     ap.add_argument("--needs", default="")
+    ap.add_argument("--suffix", default="", help="appended to the directory name under seeded/ (round 2: '2')")
     ap.add_argument("--wt", default=None, help="scratch worktree (default /tmp/seed/wt_<ID>)")
     a = ap.parse_args()
     wt, out = a.wt or "/tmp/seed/wt_%s" % a.pid, "/tmp/seed/out_%s" % a.pid
@@ -84,8 +85,9 @@ def main():
     meta["detected_by"] = [c for c, r in results.items() if r["rc"] == 1]
     if a.needs:
         meta["needs_to_manifest"] = a.needs
+    meta["round"] = 2 if a.suffix else 1
     if a.keep and confirmed:
-        d = os.path.join(VERIF, "seeded", "%s-%s" % (a.pid, a.which))
+        d = os.path.join(VERIF, "seeded", "%s-%s%s" % (a.pid, a.which, a.suffix))
         os.makedirs(d, exist_ok=True)
         shutil.copy(patch, os.path.join(d, "patch.diff"))
         shutil.copy(demo, os.path.join(d, os.path.basename(demo)))
